@@ -313,6 +313,13 @@ def run_shard(spec, ctx):
                 if src is None:
                     ctx.monitor('generator_rejects')
                     continue
+                if i % 7 == 3 and b'\r' not in src:
+                    # old-Mac line ends: every line break is a lone CR (the lexer has a newline rule for it).  Line numbers lose
+                    # their meaning for the scope oracle, so only tokens and comments are aligned for this variant.
+                    cr = src.replace(b'\n', b'\r')
+                    if layout.verify_tokens_only(p, cr):
+                        ctx.feature('bare_cr_line_ends')
+                        check_valid(ctx, cr, rng.randrange(9), None, p.feats, 'valid-cr')
                 check_valid(ctx, src, rng.randrange(9), p.scopes, p.feats, 'valid',
                             cli_dir if (cli_dir and i % 6 == 0) else None)
                 if i == 0:
@@ -351,7 +358,8 @@ def gates(m, tier):
     for w in range(9):
         if f.get('width_%d' % w, 0) < 20:
             missed.append('indent width %d used %d times' % (w, f.get('width_%d' % w, 0)))
-    for k in ('shortif', 'qprint', 'paren-prefix-suffix', 'final_newline', 'no_final_newline', 'degenerate', 'mutant_not_fully_parsed'):
+    for k in ('shortif', 'qprint', 'paren-prefix-suffix', 'final_newline', 'no_final_newline', 'degenerate', 'mutant_not_fully_parsed',
+              'bare_cr_line_ends'):
         if f.get(k, 0) < 20:
             missed.append('%s seen %d times' % (k, f.get(k, 0)))
     if mon.get('formatter_runs', 0) < 500:
